@@ -183,6 +183,8 @@ type step struct {
 	Lazy       bool     `json:"lazy"`
 	Checksum   string   `json:"checksum"`
 	Serve      *apkfile `json:"serve"` // nil = nothing under the URL
+	Dir        string   `json:"dir,omitempty"` // repository directory name under the case root (default "repo")
+	RawURL     string   `json:"raw_url,omitempty"` // the handle's URL is <case root>/<RawURL>, nothing is served
 }
 
 type seqCase struct {
@@ -198,13 +200,18 @@ type observed struct {
 }
 
 func galHandle(url, chk string) string {
-	q1 := strings.HasPrefix(chk, "Q1")
-	d, err := base64.StdEncoding.DecodeString(strings.TrimPrefix(chk, "Q1"))
-	sum := "None"
+	return fmt.Sprintf("{| h_url := %s; h_chk := %s |}", gal.Str(url), gal.Str(chk))
+}
+
+// base64.StdEncoding.DecodeString on what remains after one leading "Q1"
+func b64Row(chk string) string {
+	t := strings.TrimPrefix(chk, "Q1")
+	d, err := base64.StdEncoding.DecodeString(t)
+	r := "None"
 	if err == nil {
-		sum = "(Some " + gal.Bytes(d) + ")"
+		r = "(Some " + gal.Bytes(d) + ")"
 	}
-	return fmt.Sprintf("{| h_url := %s; h_q1 := %s; h_sum := %s |}", gal.Str(url), gal.Bool(q1), sum)
+	return gal.Pair(gal.Str(t), r)
 }
 
 func runCase(root string, n int, sc *seqCase) gal.Case {
@@ -233,14 +240,26 @@ func runCase(root string, n int, sc *seqCase) gal.Case {
 	sort.Strings(names)
 
 	var steps []string
+	var b64rows []string
+	b64seen := map[string]bool{}
 	class := ""
 	apk.VerifC05ResetProcessCaches()
 	for _, s := range sc.Steps {
 		if s.NewProcess {
 			apk.VerifC05ResetProcessCaches()
 		}
+		url := url
+		if s.Dir != "" {
+			url = filepath.Join(dir, s.Dir, "x86_64", "pkg-1.0-r0.apk")
+			if err := os.MkdirAll(filepath.Dir(url), 0o755); err != nil {
+				panic(err)
+			}
+		}
+		if s.RawURL != "" {
+			url = filepath.Join(dir, s.RawURL)
+		}
 		os.Remove(url)
-		if s.Serve != nil {
+		if s.Serve != nil && s.RawURL == "" {
 			if err := os.WriteFile(url, s.Serve.bytes(), 0o644); err != nil {
 				panic(err)
 			}
@@ -299,7 +318,7 @@ func runCase(root string, n int, sc *seqCase) gal.Case {
 			class += "E"
 		}
 		served := "None"
-		if s.Serve != nil {
+		if s.Serve != nil && s.RawURL == "" {
 			if s.Serve.garbage != nil {
 				panic("garbage origins are not part of the modelled envelope")
 			}
@@ -309,10 +328,14 @@ func runCase(root string, n int, sc *seqCase) gal.Case {
 		if s.Cache >= 0 {
 			cache = fmt.Sprintf("(Some %d%%nat)", s.Cache)
 		}
+		if !b64seen[s.Checksum] {
+			b64seen[s.Checksum] = true
+			b64rows = append(b64rows, b64Row(s.Checksum))
+		}
 		steps = append(steps, fmt.Sprintf("{| s_new_process := %s; s_cache := %s; s_lazy := %s; s_handle := %s; s_served := %s; o_out := %s |}",
 			gal.Bool(s.NewProcess), cache, gal.Bool(s.Lazy), galHandle(url, s.Checksum), served, out))
 	}
-	term := fmt.Sprintf("{| q_sha1 := %s; q_sha256 := %s; q_steps := %s |}", galTable(t.sha1), galTable(t.sha256), gal.List(steps))
+	term := fmt.Sprintf("{| q_sha1 := %s; q_sha256 := %s; q_b64 := %s; q_steps := %s |}", galTable(t.sha1), galTable(t.sha256), gal.List(b64rows), gal.List(steps))
 	// replay description without temp names
 	return gal.Case{Term: term, Desc: sc, Class: class, Key: sc.Label + "|" + class}
 }
@@ -484,9 +507,13 @@ func main() {
 		// C05-F1: one process, the URL is republished: index and origin both move to another build
 		other := vs[3] // "different package under the URL": serve = X whole
 		xIdx := other.serve
-		run(&seqCase{Label: "C05-F1 URL republished within one process (fresh cache dir) / " + lz, Steps: []step{
+		run(&seqCase{Label: "fixed C05-F1 replay: URL republished within one process (fresh cache dir) / " + lz, Steps: []step{
 			{NewProcess: true, Cache: 0, Lazy: lazy, Checksum: genuine.checksum(), Serve: genuine.serve},
 			{NewProcess: false, Cache: 1, Lazy: lazy, Checksum: xIdx.ctlOf.Checksum(), Serve: xIdx}}})
+		// C05-F2: the memo key URL+"@"+checksum is ambiguous when either part contains '@'
+		run(&seqCase{Label: "C05-F2 memo key ambiguity: (dir 'r@x', Q1<G>) then (dir 'r', 'x/x86_64/pkg-1.0-r0.apk@Q1<G>') / " + lz, Steps: []step{
+			{NewProcess: true, Cache: 0, Lazy: lazy, Checksum: genuine.checksum(), Serve: genuine.serve, Dir: "r@x"},
+			{NewProcess: false, Cache: 0, Lazy: lazy, Checksum: "x/x86_64/pkg-1.0-r0.apk@" + genuine.checksum(), RawURL: "r"}}})
 		run(&seqCase{Label: "URL republished, new process / " + lz, Steps: []step{
 			{NewProcess: true, Cache: 0, Lazy: lazy, Checksum: genuine.checksum(), Serve: genuine.serve},
 			{NewProcess: true, Cache: 0, Lazy: lazy, Checksum: xIdx.ctlOf.Checksum(), Serve: xIdx}}})
